@@ -93,4 +93,10 @@ PROPERTIES = {
         explanation="run-time builder: fresh variable names, argument/field-name nodes under contract; whole documents by an end-to-end bounded stand-in",
         assumptions=["termination of _format_variable_name's renaming loop is not proved"],
     ),
+    "C15": dict(
+        modules=["contracts.c15_plugins"],
+        bounded=[_bounded.lazy("contracts.e2e_plugins", "bounded_plugins")],
+        explanation="plugin manager fold, hook forwarding, identity of the base hooks, NoReimports; plugged packages by an end-to-end bounded stand-in",
+        assumptions=["equivalence of whole plugged and unplugged packages on scripted responses is sampled, not proved"],
+    ),
 }
